@@ -116,12 +116,13 @@ def prepare(d):
     return hd, pd_, tracers, params
 
 
-def run_gen(hd, pd_, tracers, params, nthread, enable_ranks, rsd):
+def run_gen(hd, pd_, tracers, params, nthread, enable_ranks, rsd, copy=True):
     from abacusnbody.hod.GRAND_HOD import gen_gal_cat
 
     hd2 = {k: v.copy() for k, v in hd.items()}
     pd2 = {k: v.copy() for k, v in pd_.items()}
-    out = call_repo(gen_gal_cat, hd2, pd2, {T: dict(v) for T, v in tracers.items()}, dict(params), Nthread=int(nthread), enable_ranks=bool(enable_ranks), rsd=bool(rsd), write_to_disk=False, verbose=False)
+    tr = {T: dict(v) for T, v in tracers.items()} if copy else tracers  # copy=False: hand over the caller's own dict objects
+    out = call_repo(gen_gal_cat, hd2, pd2, tr, dict(params), Nthread=int(nthread), enable_ranks=bool(enable_ranks), rsd=bool(rsd), write_to_disk=False, verbose=False)
     res = {}
     for T in tracers:
         t = out[T]
@@ -203,5 +204,21 @@ def run_case(d):
         if not (a - edge_hosts) <= b:
             raise Violation('hod-not-nested-in-ic', '%s centrals with ic=%g are not a subset of those with ic=%g: %s lost' % (T, ic, t2[T]['ic'], sorted(a - b - edge_hosts)[:5]))
         cls.append('nested-law')
+    # a history of two calls on the *same* tracer dictionaries with parameters changed in place in between (as a fit loop does):
+    # the second catalogue must follow the rule of the second parameter set
+    if d['seed'] % 3 == 0:
+        shared = {T: dict(v) for T, v in tracers.items()}
+        run_gen(hd, pd_, shared, params, d['nthread'], d['enable_ranks'], d['rsd'], copy=False)
+        T2 = 'ELG' if 'ELG' in canon else canon[-1]
+        p2 = {T: dict(v) for T, v in tracers.items()}
+        for dct in (shared[T2], p2[T2]):
+            dct['logM1'] = dct['logM1'] - 0.3
+            dct['alpha'] = dct['alpha'] * 0.8
+        out_b = run_gen(hd, pd_, shared, params, d['nthread'], d['enable_ranks'], d['rsd'], copy=False)
+        try:
+            check_against_model(d, hd, pd_, p2, params, out_b)
+        except Violation as v:
+            raise Violation('hod-second-call-on-same-dict:' + v.signature, 'second call on the same tracer dictionaries after changing %s logM1/alpha in place: %s' % (T2, v.detail))
+        cls.append('two-call-history')
     nt = (len(canon) >= 2 and nc >= 1 and ns >= 1) or any(o[2] == 'edge' and o[4] == 0.0 for o in d['overrides'])
     return {'classes': cls, 'nontrivial': nt}
